@@ -16,8 +16,203 @@ def rng_for(case, spec, salt=''):
 
 
 def build(concepts, case):
-    """Construct the real Context for a table case (shadow comes from the ctor monitor)."""
-    return concepts.Context(list(case['objects']), list(case['properties']), gen.bools_of(case))
+    """Construct the real Context for a table case (shadow comes from the ctor monitor).
+
+    ``case['twin_rows']``: a second table over the same labels whose table text has the same CRC-32
+    is built and queried through the whole public API first, and stays alive (``twin_prelude``).
+    ``case['via']``: the context handed to the driver is not the one built from the table but one
+    obtained from it by a persistence route (``via``) - its ``lattice`` is then the loaded lattice."""
+    ctx = concepts.Context(list(case['objects']), list(case['properties']), gen.bools_of(case))
+    if case.get('twin_rows') is not None:
+        twin_prelude(concepts, case, ctx)
+    if case.get('via'):
+        ctx = via(concepts, ctx, case)
+    return ctx
+
+
+TWINS = collections.deque(maxlen=8)
+
+
+def twin_prelude(concepts, case, ctx):
+    """Build the CRC-32 twin of ``ctx`` (same labels and shape, other cells, equal checksum of the
+    table text), ask it everything, keep it alive.  Whatever is remembered under a fingerprint of the
+    first context must not leak into the answers of the second.  Never raises."""
+    import random
+    rng = random.Random(repr(gen.table_key(case)))
+    try:
+        twin = concepts.Context(list(case['objects']), list(case['properties']),
+                                gen.bools_of(dict(case, rows=case['twin_rows'])))
+    except core.CaseTimeout:
+        raise
+    except Exception:
+        COL.count('crc_twin_construction_raised')
+        return
+    try:
+        with core.monitor_code():
+            same = twin.crc32() == ctx.crc32() and twin.bools != ctx.bools
+    except Exception:
+        same = False
+    COL.count('crc_twins_confirmed_equal_crc32' if same else 'crc_twins_unconfirmed')
+    TWINS.append(twin)
+    exercise(concepts, twin, rng)
+
+
+def exercise(concepts, ctx, rng, walk=30):
+    """A systematic sweep over the public API of ``ctx`` and its lattice (every call is judged by
+    whatever monitors the running property has attached), followed by a random walk.  Never raises."""
+    def attempt(fn):
+        try:
+            return fn()
+        except (core.CaseTimeout, core.CaseTooLarge):
+            raise
+        except Exception:
+            COL.counters['exercise_calls_raised'] += 1
+            return RAISED
+    objs, props = list(ctx.objects), list(ctx.properties)
+    algos = concepts.algorithms
+    attempt(lambda: list(algos.iterconcepts(ctx)))
+    attempt(lambda: algos.get_concepts(ctx))
+    attempt(lambda: list(algos.fcbo_dual(ctx)))
+    attempt(lambda: list(algos.fast_generate_from(ctx)))
+    lat = get_lattice(ctx)
+    for o in objs[:24]:
+        attempt(lambda: (ctx.intension([o]), ctx[[o]], ctx.neighbors([o])))
+    for p_ in props[:24]:
+        attempt(lambda: (ctx.extension([p_]), ctx[[p_]]))
+    for _ in range(12):
+        so = rng.sample(objs, rng.randint(0, len(objs)))
+        sp = rng.sample(props, rng.randint(0, len(props)))
+        attempt(lambda: (ctx.intension(so), ctx.extension(sp), ctx.neighbors(so)))
+    attempt(lambda: (str(ctx.relations()), str(ctx.relations(include_unary=True))))
+    attempt(lambda: (ctx.todict(), ctx.tostring(), ctx.definition(), ctx.shape, ctx.fill_ratio))
+    if lat is not RAISED:
+        members = attempt(lambda: list(lat))
+        if members is not RAISED and members:
+            n = len(members)
+            for c in members[:400]:
+                attempt(c.minimal)
+                if len(c.intent) <= 10:
+                    attempt(lambda: list(c.attributes()))
+                attempt(lambda: (lat[c.extent], lat(c.intent), str(c), c.atoms))
+            for c in members[:120]:
+                attempt(lambda: (list(c.upset()), list(c.downset())))
+            pairs = ([(a, b) for a in members for b in members] if n <= 40 else
+                     [(rng.choice(members), rng.choice(members)) for _ in range(800)])
+            for a, b in pairs:
+                attempt(lambda: (a | b, a & b, a <= b, a < b, a.incompatible_with(b), a.complement_of(b),
+                                 a.subcontrary_with(b), a.orthogonal_to(b)))
+            for _ in range(10):
+                ms = [rng.choice(members) for _ in range(rng.randint(0, 5))]
+                attempt(lambda: (lat.join(ms), lat.meet(ms), list(lat.upset_union(ms)), list(lat.downset_union(ms))))
+            if n <= 200:
+                attempt(lat.graphviz)
+                attempt(lambda: str(lat))
+    COL.counters['exercise_sweeps'] += 1
+    if len(objs) <= 14 and len(props) <= 14:
+        interference(concepts, ctx, lat if lat is not RAISED else None, rng, walk)
+
+
+def via(concepts, ctx, case):
+    """The same context (and lattice) after a trip through a persistence route.  The result is a
+    context whose ``lattice`` is the loaded one (tied), so a driver runs its whole workload on loaded
+    objects.  If the route itself fails the original is returned (the route is C11's business)."""
+    import copy
+    import io
+    import pickle
+    import random
+    how = case['via']
+    rng = random.Random(repr((how, gen.table_key(case))))
+    C = concepts.Context
+    try:
+        from .c06 import permuted_dict, structured_raw_dict
+        lat = ctx.lattice
+        tie(lat, ctx)
+        d = ctx.todict()
+        if how.startswith('edited-export-'):
+            # the caller re-orders and overwrites what the first export handed out, then exports again
+            if isinstance(d.get('lattice'), list) and d['lattice']:
+                d['lattice'].reverse()
+                d['lattice'][0] = ((), (), (), ())
+                for k, row in enumerate(d['lattice']):
+                    if isinstance(row, list):
+                        row.reverse()
+            if isinstance(d.get('context'), list):
+                d['context'].reverse()
+            how2 = how[len('edited-export-'):]
+            if how2 == 'fromdict':
+                new = C.fromdict(ctx.todict())
+            elif how2 == 'json':
+                buf = io.StringIO()
+                ctx.tojson(buf)
+                buf.seek(0)
+                new = C.fromjson(buf)
+            else:
+                new, l2 = pickle.loads(pickle.dumps((ctx, lat)))
+                if 'lattice' not in vars(new):
+                    new.lattice = l2
+        elif how == 'fromdict':
+            new = C.fromdict(copy.deepcopy(d))
+        elif how == 'fromdict-raw':
+            new = C.fromdict(permuted_dict(d, rng), raw=True)
+        elif how == 'fromdict-raw-sorted':
+            new = C.fromdict(structured_raw_dict(d, rng, 'sorted'), raw=True)
+        elif how == 'fromdict-raw-reversed':
+            new = C.fromdict(structured_raw_dict(d, rng, 'reversed'), raw=True)
+        elif how in ('json', 'json-raw'):
+            buf = io.StringIO()
+            if how == 'json':
+                ctx.tojson(buf)
+                buf.seek(0)
+                new = C.fromjson(buf)
+            else:
+                import json
+                json.dump(permuted_dict(d, rng), buf)
+                buf.seek(0)
+                new = C.fromjson(buf, raw=True)
+        elif how == 'literal':
+            new = C.fromstring(ctx.tostring('python-literal'), 'python-literal')
+        elif how == 'pickle':
+            new = pickle.loads(pickle.dumps(ctx, protocol=rng.choice([0, 1, 2, 3, 4, 5])))
+        elif how == 'pickle-lattice':
+            new, l2 = pickle.loads(pickle.dumps((ctx, lat), protocol=rng.choice([0, 2, 4, 5])))
+            if 'lattice' not in vars(new):
+                new.lattice = l2            # the pair travelled together; expose it the usual way
+        elif how == 'pickle-member':
+            m2 = pickle.loads(pickle.dumps(list(lat)[rng.randrange(len(lat))]))
+            l2 = m2.lattice
+            new = context_of(l2) or ctx
+            if new is not ctx and 'lattice' not in vars(new):
+                new.lattice = l2
+        elif how == 'deepcopy':
+            new, l2 = copy.deepcopy((ctx, lat))
+            if 'lattice' not in vars(new):
+                new.lattice = l2
+        elif how == 'copy':
+            new = ctx.copy(include_lattice=True)
+        elif how == 'second-lattice':
+            new = ctx
+            l2 = concepts.lattices.Lattice(ctx)
+            list(lat)
+            new.__dict__['lattice'] = l2
+        else:
+            raise ValueError(how)
+        if 'lattice' in vars(new):
+            tie(new.lattice, new)
+        if new.objects != ctx.objects or new.properties != ctx.properties or new.bools != ctx.bools:
+            COL.count('via_route_changed_the_table_not_used')
+            return ctx
+    except (core.CaseTimeout, core.CaseTooLarge):
+        raise
+    except Exception:
+        COL.count('via_route_failed_original_used')
+        return ctx
+    COL.count('via:' + how)
+    if new is not ctx:
+        VIA_SOURCES.append(ctx)         # the source stays alive beside the loaded one
+    return new
+
+
+VIA_SOURCES = collections.deque(maxlen=4)
 
 
 def build_or_skip(concepts, case):
@@ -221,6 +416,76 @@ def failing_calls(concepts, ctx, lat, rng, steps=4):
     COL.counters['failing_calls'] += steps
 
 
+def editing_calls(ctx, lat, rng, steps=3):
+    """Successful calls whose returned containers are then edited in place by the caller (used as a
+    work stack, re-sorted, cleared): what a call hands out is the caller's, later answers must not
+    depend on it.  The calls themselves are judged by the attached monitors as usual.  Never raises."""
+    objs, props = list(ctx.objects), list(ctx.properties)
+
+    def wreck(x):
+        if isinstance(x, list):
+            for item in x[:3]:
+                wreck(item)
+            if x and rng.random() < .7:
+                x.pop(rng.randrange(len(x)))
+            x.reverse()
+            if rng.random() < .5:
+                x.append(x[0] if x else ('junk',))
+            if rng.random() < .3:
+                x.clear()
+        elif isinstance(x, dict):
+            for v in list(x.values())[:4]:
+                wreck(v)
+            if x and rng.random() < .5:
+                x.pop(next(iter(x)))
+        elif isinstance(x, (set, bytearray)):
+            x.clear()
+    for _ in range(steps):
+        k = rng.randrange(7 if lat is None else 12)
+        sub = rng.sample(objs, rng.randint(0, min(len(objs), 3)))
+        try:
+            if k == 0:
+                wreck(ctx.neighbors(sub, raw=True))
+            elif k == 1:
+                wreck(ctx.neighbors(sub))
+            elif k == 2:
+                wreck(ctx.neighbors([], raw=True))
+                for o in objs[:6]:
+                    wreck(ctx.neighbors([o], raw=True))
+            elif k == 3:
+                wreck(ctx.bools)
+            elif k == 4:
+                wreck(ctx.relations(include_unary=rng.random() < .5))
+            elif k == 5:
+                wreck(ctx.todict(ignore_lattice=rng.choice([None, True])))
+            elif k == 6:
+                d = ctx.definition()
+                d.add_object('\x00 edit \x00', props[:1])
+                d.remove_property(props[0])
+            elif k == 7:
+                wreck(ctx.todict())
+            elif k == 8:
+                wreck(lat[:]), wreck(lat[1:3])
+            elif k == 9:
+                g = lat.graphviz()
+                g.node('c0', color='red')
+                g.edge('c0', 'c%d' % (len(lat) - 1), style='dashed')
+                g.body.reverse()
+                g.body.pop()
+            elif k == 10:
+                import sys
+                algos = sys.modules[type(ctx).__module__.split('.')[0]].algorithms
+                wreck(algos.get_concepts(ctx))
+            elif k == 11:
+                c = lat[rng.randrange(len(lat))]
+                wreck(list(c.attributes()) if len(c.intent) <= 8 else [])
+        except (core.CaseTimeout, core.CaseTooLarge):
+            raise
+        except Exception:
+            COL.counters['editing_calls_raised'] += 1
+    COL.counters['returned_containers_edited'] += steps
+
+
 def get_lattice(ctx):
     """``ctx.lattice`` (tied to ``ctx``) or RAISED.  For one context in three the first access comes
     after a few calls that fail (see ``failing_calls``)."""
@@ -235,6 +500,9 @@ def get_lattice(ctx):
         if key % 3 == 0:
             failing_calls(sys.modules[type(ctx).__module__.split('.')[0]], ctx, None, random.Random(key))
             COL.counters['first_lattice_access_after_failed_calls'] += 1
+        elif key % 3 == 1:
+            editing_calls(ctx, None, random.Random(key), 5)
+            COL.counters['first_lattice_access_after_edits_of_returned_containers'] += 1
     lat = call(lambda: ctx.lattice)
     if lat is not RAISED:
         tie(lat, ctx)
@@ -456,6 +724,9 @@ def interference(concepts, ctx, lat, rng, steps=20):
                 continue
             if k == 27:
                 k = 9
+            if k in (5, 6, 19) and rng.random() < .5:
+                editing_calls(ctx, lat if members else None, rng, 1)
+                continue
             if k == 0:
                 ctx.intension(argform(sub_o, rng))
             elif k == 1:
@@ -521,7 +792,7 @@ def interference(concepts, ctx, lat, rng, steps=20):
                 lat.graphviz()
             elif k == 21 and len(members) <= 200:
                 import pickle
-                pickle.loads(pickle.dumps((ctx, lat), protocol=rng.choice([2, 4, 5])))
+                pickle.loads(pickle.dumps((ctx, lat), protocol=rng.choice([0, 1, 2, 4, 5])))
             elif k == 22:
                 it = iter(lat)
                 next(it, None)
